@@ -9,7 +9,7 @@ from .env import Fxp, to_float, is_exact_float, flat, exact, codes_of, tok_exact
 INT_DTYPES = ('int8', 'int16', 'int32', 'int64', 'uint8', 'uint16', 'uint32', 'uint64')
 FLOAT_DTYPES = ('float16', 'float32', 'float64', 'longdouble')
 SCALAR_CARRIERS = ('pyint', 'pyfloat', 'decstr', 'arr0d', 'fxp') + tuple('np.' + d for d in INT_DTYPES + FLOAT_DTYPES)
-ARRAY_CARRIERS = ('list', 'listf', 'tuple', 'nested', 'strlist', 'arr.fxp', 'arr2.fxp') + tuple('arr.' + d for d in INT_DTYPES + FLOAT_DTYPES) + tuple('arr2.' + d for d in ('int64', 'float64', 'float32', 'int16'))
+ARRAY_CARRIERS = ('list', 'listf', 'listnp', 'tuple', 'nested', 'strlist', 'arr.fxp', 'arr2.fxp') + tuple('arr.' + d for d in INT_DTYPES + FLOAT_DTYPES) + tuple('arr2.' + d for d in ('int64', 'float64', 'float32', 'int16'))
 ROUTES = ('ctor', 'call', 'setval', 'setitem', 'tmpl', 'tmplkw')
 
 
@@ -72,6 +72,8 @@ def ok_for(carrier, vals):
         return all(v.denominator == 1 or is_exact_float(v) for v in vals)
     if carrier == 'listf':
         return all(is_exact_float(v) for v in vals)
+    if carrier == 'listnp':
+        return all(v.denominator == 1 and abs(v) < 2 ** 31 for v in vals) or all(_fits_float_dtype(v, 'float32') for v in vals)
     if carrier == 'strlist':
         return all(is_exact_float(v) and v.denominator.bit_length() <= 80 for v in vals)
     raise ValueError(carrier)
@@ -134,6 +136,12 @@ def build(carrier, vals):
         return np.array([to_float(v) for v in vals], dtype=dt).reshape(2, n // 2), (2, n // 2)
     if carrier == 'list':
         return [_py(v) for v in vals], (n,)
+    if carrier == 'listnp':
+        # a Python list whose elements are NumPy scalars of the narrowest type that holds them (np.int8 ... np.int32, or np.float32)
+        if all(v.denominator == 1 and abs(v) < 2 ** 31 for v in vals):
+            dt = next(d for d in (np.int8, np.uint8, np.int16, np.uint16, np.int32) if all(np.iinfo(d).min <= int(v) <= np.iinfo(d).max for v in vals))
+            return [dt(int(v)) for v in vals], (n,)
+        return [np.float32(to_float(v)) for v in vals], (n,)
     if carrier == 'listf':
         return [to_float(v) for v in vals], (n,)
     if carrier == 'tuple':
